@@ -217,7 +217,10 @@ Definition decls_of_object (fl : go_flags) (ctx : schemas) (o : object) : list g
   | TScalar _ k v _ =>
       if negb (dyn_is_nil v) then [DConst name ""]
       else [DType name (match k with KBytes => GTBuiltin "[]byte" | _ => format_type fl ctx (o_type o) end)]
-  | TRef _ _ _ => DType name (format_type fl ctx (o_type o)) :: ctor (resolves_to_struct ctx (o_type o))
+  | TRef _ p n =>
+      (* generateConstructor looks ONE reference ahead: the referred object itself must be a struct *)
+      DType name (format_type fl ctx (o_type o))
+      :: ctor (match locate_object ctx p n with Some o' => is_struct (o_type o') | None => false end)
   | TMap _ _ _ | TArray _ _ | TInter _ _ => [DType name (format_type fl ctx (o_type o))]
   | TStruct _ _ _ =>
       DType name (format_type fl ctx (o_type o)) :: DFunc ("New" ++ name)
